@@ -38,7 +38,7 @@ type GeneralizedGammaDistribution struct {
 /* -------------------------------------------------------------------------- */
 
 func NewGeneralizedGammaDistribution(a, d, p Scalar) (*GeneralizedGammaDistribution, error) {
-  if a.GetFloat64() <= 0.0 || d.GetFloat64() <= 0.0 || p.GetFloat64() <= 0.0 {
+  if !(a.GetFloat64() > 0.0) || !(d.GetFloat64() > 0.0) || !(p.GetFloat64() > 0.0) {
     return nil, fmt.Errorf("invalid parameters")
   }
   t  := a.Type()
